@@ -165,6 +165,17 @@ def run_swarm(r, prop, worlds, judges_=(), oracles=None, need_fault=False, label
     results = r.map(swarm_job, jobs, label)
     for res in results:
         r.absorb(res)
+    # a check whose workload collapses cannot decide anything: say so instead of reporting success
+    fin = sum(1 for res in results if res.get("finished"))
+    if results and not r.violations and fin < max(2, 0.25 * len(results)):
+        reasons = {}
+        for res in results:
+            for a in res.get("aborted", []):
+                k = f"{a.get('type')}: {str(a.get('msg'))[:120]}"
+                reasons[k] = reasons.get(k, 0) + 1
+        top = sorted(reasons.items(), key=lambda kv: -kv[1])[:3]
+        raise runner.Harness(f"workload collapsed: only {fin} of {len(results)} simulated runs finished; "
+                             f"most frequent abort reasons: {top}")
     return results
 
 
